@@ -95,7 +95,7 @@ def mirror_tokens(text, names):
 
 _RE_UNIQ = re.compile(r"_[a-z][a-z_]*?\d+_")
 _RE_INC = re.compile(r"^\s*(#\s*include\b.*|import\s.*|from\s.*\simport\s.*)$")
-_RE_B85 = re.compile(r"^\s+'[0-9A-Za-z!#$%&()*+\-;<=>?@^_`{|}~]{20,}'$")
+_RE_B85 = re.compile(r"^\s+'[0-9A-Za-z!#$%&()*+\-;<=>?@^_`{|}~]+'$")
 NORMS = "buim"  # blank lines, unique names, include/import lines, pickled model (py)
 
 
@@ -363,6 +363,8 @@ def run_scenario(sc, work, seed):
                 "uq": {"obs": 0, "ub": 0, "un": 0, "exp": 0},
                 "nh": norm_hashes(text),
             }
+            if os.environ.get("C10_DEBUG_TEXT"):
+                ev["text"] = text  # diagnosis aid: never set by the check itself
             if tpl["id"] == "mirror":
                 sh = tpl["shape"]
                 ev["toks"] = mirror_tokens(text, names)
@@ -453,8 +455,9 @@ def model_defsets(ntypes=4):
     return res
 
 
-def model_scenario(sid, rec, lang, kind):
-    """a history emitted by TLC (shape, limit, runs with abstract files) -> executable scenario"""
+def model_scenario(sid, rec, lang, kind, builtin=False):
+    """a history emitted by TLC (shape, limit, runs with abstract files) -> executable scenario (mirror templates, or the same
+    history of subsets/orders/reuse modes/definition sets through the built-in templates)"""
     shape = {k: (bool(v) if k in ("mod", "inc") else int(v)) for k, v in rec["shape"].items()}
     limit = int(rec["limit"])
     if limit == 0 and (shape["lead"] or shape["trail"]) and lang in ("c", "py"):
@@ -468,10 +471,17 @@ def model_scenario(sid, rec, lang, kind):
             "omit": bool(r["omit"]), "pps": {"limit": limit - 1} if limit > 0 else {"limit": None}, "tap": True,
         })
         expect.append([[int(f["t"]), f["out"]] for f in r["files"]])
+    if builtin:
+        for r in runs:
+            if lang in ("cpp", "html") and limit == 0:
+                r["pps"], r["tap"] = {"limit": None}, (sid % 2 == 0)
+        return {"sid": sid, "kind": kind + "/builtin", "defsets": model_defsets(), "rootns": "mr", "lookup": [], "tpl": {"id": "builtin"},
+                "names": {}, "runs": runs}
     return {"sid": sid, "kind": kind, "defsets": model_defsets(), "rootns": "mr", "lookup": [], "tpl": {"id": "mirror", "shape": shape},
             "names": {"mr/A%d_1_0" % i: i for i in range(1, 5)}, "runs": runs, "expect": expect}
 
 
+FIELD_NAMES = ["f%d", "f%d", "f%d", "class%d", "double", "register", "isok%d", "memx%d", "typename", "namespace", "lambda", "str%d", "None%d", "del"]
 PRIMS = ["uint8", "uint16", "int32", "float32", "bool", "saturated uint7", "truncated uint12", "float64", "int3", "uint64", "float16"]
 
 
@@ -500,6 +510,10 @@ class NsBuilder:
             return "%s[<=%d]" % (base, rng.randint(1, 4))
         return base
 
+    def fname(self, i):
+        n = self.rng.choice(FIELD_NAMES)
+        return (n % i) if "%d" in n else ("%s%s" % (n, "" if i == 0 else "_%d" % i))
+
     def add(self, name, ver, ns=None, kind=None, fields=None, pre=""):
         rng = self.rng
         if ns is None:
@@ -508,9 +522,7 @@ class NsBuilder:
             kind = rng.choices(["struct", "union", "service"], weights=[7, 2, 1])[0]
         if fields is None:
             n = rng.randint(2, 3) if kind == "union" else rng.randint(1, 4)
-            fields = [(self.field_expr(True), "f%d" % i) for i in range(n)]
-            if kind == "union":
-                fields = [(e, f) for e, f in fields]
+            fields = [(self.field_expr(True), self.fname(i)) for i in range(n)]
         t = dict(ns=ns, name=name, ver=ver, kind=kind, fields=fields, pre=pre)
         if kind == "service":
             t["resp"] = [(self.field_expr(True), "r%d" % i) for i in range(rng.randint(0, 2))]
@@ -976,6 +988,9 @@ def run(ctx):
             scen[sid] = sc
             pred[sid] = cfg
             sid += 1
+            if i % 3 == 0 and cfg in ("neg_depkey", "neg_limiter"):
+                scen[sid] = model_scenario(sid, h, LANGS[(i // 3) % 4] if cfg == "neg_limiter" else ["c", "cpp"][(i // 3) % 2], "predicted:" + cfg, builtin=True)
+                sid += 1
     n_pred = sid
 
     # ---- 3. spec -> code: every complete history of the repaired model, with the expected abstract files ----------------
@@ -986,6 +1001,9 @@ def run(ctx):
     for i, h in enumerate(cases[::step]):
         scen[sid] = model_scenario(sid, h, LANGS[i % 4], "model")
         sid += 1
+        if i % 3 == 0:
+            scen[sid] = model_scenario(sid, h, LANGS[(i // 3) % 4], "model", builtin=True)
+            sid += 1
     if not ctx.quick:
         sim = run_model(ctx, "GenSiblings_emitsim", "MaxRuns=4 simulation", emit=True, simulate="num=1500", depth=60, seed=ctx.seed + 1).json_lines()
         seen = set()
@@ -1046,7 +1064,7 @@ def run(ctx):
             if mm and s not in p_rejected_sids:
                 ndrift += 1
                 ex = ex or (s, mm[0])
-        elif sc["kind"].startswith("predicted:"):
+        elif sc["kind"].startswith("predicted:") and s in pred:
             cfg = pred[s]
             mm = compare_expected(ctx, sc, [e for e in events[s] if e["seed"] == events[s][0]["seed"]], rej)
             m = matched_pred.setdefault(cfg, [0, 0, 0])
